@@ -12,6 +12,8 @@ pub enum C {
     OutDay(i32),
     Triple(i32, u32, u32),
     Pair(i32, i32),
+    /// a (year 0..=9999, month, day) triple written as text "YYYY-MM-DD": through Date::parse and through serde (JSON string)
+    Text(i32, u32, u32),
     /// a raw day number handed to the type's serde visitors as an integer of the given wire width (0 = i64, 1 = u64, 2 = i32, 3 = u32)
     Wire(i64, u8),
 }
@@ -23,6 +25,7 @@ impl Case for C {
             C::Triple(y, m, d) => json!({"kind":"triple","y":y,"m":m,"d":d}),
             C::Pair(a, b) => json!({"kind":"pair","a":a,"b":b}),
             C::Wire(v, w) => json!({"kind":"wire-integer","v":v,"width":w}),
+            C::Text(y, m, d) => json!({"kind":"text-triple","y":y,"m":m,"d":d}),
         }
     }
 }
@@ -162,6 +165,33 @@ pub fn check(st: &mut Stats, c: &C) {
                         }
                         if (y_bad as u8 + m_bad as u8 + d_bad as u8) > 1 {
                             st.unspecified += 1;
+                        }
+                    }
+                }
+            }
+        }
+        C::Text(y, m, d) => {
+            // the triple as the text "YYYY-MM-DD": accepted exactly when it names a real date, and then as that date
+            let valid = Cal::valid_ymd(y as i64, m, d);
+            let text = format!("{:04}-{:02}-{:02}", y, m, d);
+            sqldatetime::verif_hooks::set_clock(2021, 3, 11, 17, 6, 8, 912_345);
+            st.op(Op::D_parse);
+            let a = Date::parse(&text, "YYYY-MM-DD").ok();
+            st.op(Op::S_json_de);
+            let b = serde_json::from_str::<Date>(&format!("\"{}\"", text)).ok();
+            for (how, r) in [("Date::parse", a), ("serde text", b)] {
+                match r {
+                    Some(dt) => {
+                        st.obs(Op::D_parse, &dt);
+                        if !valid {
+                            st.fail(format!("C01/text-triple/accepts-non-date/{}", how), format!("{:?} accepted as {:?}", text, dt.extract()));
+                        } else if dt.extract() != (y, m, d) {
+                            st.fail(format!("C01/text-triple/wrong-date/{}", how), format!("{:?} read as {:?}", text, dt.extract()));
+                        }
+                    }
+                    None => {
+                        if valid {
+                            st.fail(format!("C01/text-triple/rejects-real-date/{}", how), format!("{:?} rejected", text));
                         }
                     }
                 }
@@ -323,6 +353,30 @@ pub fn run(ctx: &Ctx, st: &mut Stats) {
         }
         st.eval_hist(mix(a as u64, b as u64), vec![C::Day(a as i32), C::Day(b as i32), C::Day(a as i32)], check);
     });
+    let np = ctx.tier.pick(300, 300_000, 3_000_000);
+    ctx.par(st, "history: other operations on related dates (primers), then the judged case; also A,A", false, 0, np, |st, i, rng| {
+        let n = rng.range_i64(MIN_DAY as i64, MAX_DAY as i64);
+        if i % 8 == 0 {
+            st.eval_hist(mix(n as u64, 0xAA), vec![C::Day(n as i32), C::Day(n as i32)], check);
+        } else {
+            let pr = crate::primers::gen_some(rng, &[n], 0, &[]);
+            st.eval_primed(mix(n as u64, i as u64), pr, C::Day(n as i32), check);
+        }
+    });
+    // triples as text, alone and in the history "a real date, then a non-date twice in a row"
+    let ntx = ctx.tier.pick(200, 200_000, 2_000_000);
+    ctx.par(st, "text triples: alone; history valid, invalid, invalid", false, 0, ntx, |st, i, rng| {
+        let y = rng.range_i64(0, 9999) as i32;
+        let m = if rng.chance(1, 8) { rng.range_i64(0, 14) as u32 } else { rng.range_i64(1, 12) as u32 };
+        let d = if rng.chance(1, 2) { rng.range_i64(27, 33) as u32 } else { rng.range_i64(0, 33) as u32 };
+        let c = C::Text(y, m, d);
+        if i % 3 == 0 {
+            st.eval_h(mix(y as u64, (m * 64 + d) as u64), &c, check);
+        } else {
+            let (gy, gm, gd) = cal().of(rng.range_i64(MIN_DAY as i64, MAX_DAY as i64) as i32);
+            st.eval_hist(mix(mix(y as u64, (m * 64 + d) as u64), mix(gy as u64, (gm * 64 + gd) as u64)), vec![C::Text(gy, gm, gd), c, c, C::Text(gy, gm, gd)], check);
+        }
+    });
     ctx.par(st, "history: all day numbers descending", true, 0, n_idx, |st, i, _| {
         st.eval(&C::Day(MAX_DAY - (i * stride) as i32), check);
     });
@@ -347,6 +401,7 @@ pub fn replay(v: &Value, st: &mut Stats) -> bool {
         "triple" => C::Triple(ji64(v, "y") as i32, ji64(v, "m") as u32, ji64(v, "d") as u32),
         "pair" => C::Pair(ji64(v, "a") as i32, ji64(v, "b") as i32),
         "wire-integer" => C::Wire(ji64(v, "v"), ji64(v, "width") as u8),
+        "text-triple" => C::Text(ji64(v, "y") as i32, ji64(v, "m") as u32, ji64(v, "d") as u32),
         _ => return false,
     };
     st.eval(&c, check);
